@@ -99,7 +99,7 @@ func (v *verifier) VerifyRequests() error {
 
 // ResetRequestVerifications clears all failed request verifications.
 func (v *verifier) ResetRequestVerifications() {
-	v.err = martian.NewMultiError()
+	v.err.Reset()
 }
 
 // verifierFromJSON builds a querystring.Verifier from JSON.
